@@ -31,6 +31,8 @@ RULE = ('A generated chain (6..20 blocks, transactions concentrated on few scrip
         'a generated flush schedule; History.max_hist_row_entries is set to 2..8 (instance '
         'attribute, as the repository\'s own test does) so rows are longer and shorter than a '
         'compacted row. Generated operations: compaction batch with limit in {1, 40, 400, 8e6}, '
+        'a batch killed just before its k-th storage commit (k in 1..3; re-opened, histories '
+        'compared, then resumed or abandoned by the following operations), '
         'stop and resume (close, open_for_compacting), the real electrumx_compact_history tool to '
         'completion, kill after the last batch but before the UTXO flush count is copied, normal '
         'server start (abandons an unfinished compaction), extend / fork / forced reorg + settle. '
@@ -62,6 +64,7 @@ BLOCK = st.builds(lambda cb, nonce, txs: {'cb': cb, 'nonce': nonce, 'coll': None
 OP = st.one_of(
     st.tuples(st.just('batch'), st.sampled_from([1, 1, 40, 400, 8_000_000])),
     st.tuples(st.just('batch'), st.sampled_from([1, 1, 40, 400, 8_000_000])),
+    st.tuples(st.just('batch_kill'), st.sampled_from([1, 40, 400, 8_000_000]), st.integers(1, 3)),
     st.tuples(st.just('stop_resume')),
     st.tuples(st.just('tool')),
     st.tuples(st.just('finish_kill_before_utxo_count')),
@@ -80,6 +83,52 @@ CASE = st.builds(
     st.lists(st.sampled_from([0, 1, 2, 1, 2]), min_size=1, max_size=20),
     st.integers(2, 8),
     st.lists(OP, min_size=1, max_size=8))
+
+
+class Killed(BaseException):
+    '''The compacting process dies at a storage commit.'''
+
+
+class KillSwitch:
+    '''Counts the commits (batch commits and direct puts) a compaction pass makes on the history
+    DB and kills the process just before the kill_at-th: that commit and everything after it
+    never reach the disk.'''
+
+    def __init__(self, storage, kill_at):
+        self.storage = storage
+        self.kill_at = kill_at
+        self.count = 0
+        self.real_write_batch = storage.write_batch
+        self.real_put = storage.put
+        switch = self
+
+        class Batch:
+            def __init__(self):
+                self.cm = switch.real_write_batch()
+
+            def __enter__(self):
+                return self.cm.__enter__()
+
+            def __exit__(self, et, ev, tb):
+                if et is None:
+                    switch.count += 1
+                    if switch.count == switch.kill_at:
+                        k = Killed()
+                        self.cm.__exit__(Killed, k, None)     # transaction batch: discarded
+                        raise k
+                return self.cm.__exit__(et, ev, tb)
+
+        def put(key, value):
+            switch.count += 1
+            if switch.count == switch.kill_at:
+                raise Killed()
+            return switch.real_put(key, value)
+        storage.write_batch = Batch
+        storage.put = put
+
+    def remove(self):
+        self.storage.write_batch = self.real_write_batch
+        self.storage.put = self.real_put
 
 
 _tool = None
@@ -254,6 +303,36 @@ class Machine:
                         self.info['classes'].add('hashX_with_ge_2_rows_after')
                 if kind != 'batch':
                     self.close_compacting()
+            elif kind == 'batch_kill':
+                # one pass, killed just before its k-th commit on the history DB (a pass is one
+                # batch in the code as anchored: k=1 loses the whole pass, k>1 never fires)
+                db = await self.open_compacting()
+                h = db.history
+                if h.comp_cursor == -1:
+                    h.comp_cursor = 0
+                h.comp_flush_count = max(h.comp_flush_count, 1)
+                switch = KillSwitch(h.db, op[2])
+                killed = False
+                try:
+                    h._compact_history(op[1])
+                except Killed:
+                    killed = True
+                finally:
+                    switch.remove()
+                self.compaction_touched = True
+                if killed:
+                    self.info['classes'].add('killed_at_commit_%d_of_a_pass' % op[2])
+                    self.close_compacting()
+                    db = await self.open_compacting()
+                    h = db.history
+                    self.check_histories(h, f'compaction pass killed before its commit #{op[2]}, '
+                                            f're-opened for compacting')
+                elif h.comp_cursor == -1:
+                    db.set_flush_count(h.flush_count)
+                    self.info['classes'].add('compaction_completed')
+                    self.check_histories(h, 'after batch')
+                else:
+                    self.check_histories(h, 'after batch')
             elif kind == 'stop_resume':
                 if self.cdb is not None:
                     cur = self.cdb.history.comp_cursor
